@@ -74,7 +74,7 @@ func init() {
 
 func (p *c03) ID() string { return "C03" }
 func (p *c03) Rule() string {
-	return "chain part: every shape v-if + k x v-else-if (k<=2 quick, k<=3 thorough) with/without v-else x every truth assignment x 16 placements (the chain members being include tags / shorthand component tags / <slot> elements of a component / <template v-html> tags themselves, top, nested, inside v-for with per-item conditions, on <template>, whitespace/comment between members, two adjacent chains, chain directly before a v-for sibling, inside table rows, inside an included component, inside slot content, inside a layout) x condition form (bare, negated) x a rotation through all Go value kinds realising each truth value; lazy part: every chain of 1-3 v-else-if (with/without v-else) x every position of the first truthy member that is followed by a v-else-if x later conditions that call a function returning an error / a counting function x {top, v-for, <template>, component}: the taken branch is rendered and the render does not fail; uniform part: every value of the truthy/falsy/undecided catalogue (all numeric widths, strings incl. \"0\" and \"false\", nil, missing, pointers, slices, maps, structs) x {v, o.v, v as the item of a loop whose variable shadows a truthy outer v} read in v-if, v-else-if, v-show, :attr, :class object and their negations in v-if/v-else-if/v-show; non-trivial = every generated case (each has a condition decided by data); distinct by (shape, placement, form, values)"
+	return "chain part: every shape v-if + k x v-else-if (k<=2 quick, k<=3 thorough) with/without v-else x every truth assignment x 16 placements (the chain members being include tags / shorthand component tags / <slot> elements of a component / <template v-html> tags themselves, top, nested, inside v-for with per-item conditions, on <template>, whitespace/comment between members, two adjacent chains, chain directly before a v-for sibling, inside table rows, inside an included component, inside slot content, inside a layout) x condition form (bare, negated) x a rotation through all Go value kinds realising each truth value; lazy part: every chain of 1-3 v-else-if (with/without v-else) x every position of the first truthy member that is followed by a v-else-if x later conditions that call a function returning an error / a counting function x {top, v-for, <template>, component}: the taken branch is rendered and the render does not fail; uniform part: every value of the truthy/falsy/undecided catalogue (all numeric widths, strings incl. \"0\" and \"false\", nil, missing, pointers, slices, maps, structs) x {v, o.v, v as the item of a loop whose variable shadows a truthy outer v, a variable named title / json like a built-in template function} read in v-if, v-else-if, v-show, :attr, :class object and their negations in v-if/v-else-if/v-show; non-trivial = every generated case (each has a condition decided by data); distinct by (shape, placement, form, values)"
 }
 
 func (p *c03) maxK(ctx core.Ctx) int { return ctx.Pick(2, 3) }
@@ -102,7 +102,7 @@ func (p *c03) rot(ctx core.Ctx) int { return ctx.Pick(8, len(c03Truthy)) }
 
 func (p *c03) Plan(ctx core.Ctx) int {
 	nChain := len(p.shapes(ctx)) * len(c03Placements) * 2 * p.rot(ctx)
-	nUni := (len(c03Falsy) + len(c03Truthy) + len(c03Undecided) + len(c03UniformOnly)) * 3
+	nUni := (len(c03Falsy) + len(c03Truthy) + len(c03Undecided) + len(c03UniformOnly)) * 5
 	return nChain + nUni + len(c03LazyCases())
 }
 
@@ -110,16 +110,17 @@ func (p *c03) Gen(ctx core.Ctx, i int) any {
 	shapes := p.shapes(ctx)
 	rot := p.rot(ctx)
 	nChain := len(shapes) * len(c03Placements) * 2 * rot
-	if nUni := (len(c03Falsy) + len(c03Truthy) + len(c03Undecided) + len(c03UniformOnly)) * 3; i >= nChain+nUni {
+	if nUni := (len(c03Falsy) + len(c03Truthy) + len(c03Undecided) + len(c03UniformOnly)) * 5; i >= nChain+nUni {
 		l := c03LazyCases()[i-nChain-nUni]
 		return c03Case{Part: "lazy", Lazy: &l}
 	}
 	if i >= nChain {
 		j := i - nChain
 		all := append(append(append(append([]TV{}, c03Falsy...), c03Truthy...), c03Undecided...), c03UniformOnly...)
-		v := all[j/3]
-		// shadow: the value is the item of a loop whose variable shadows a truthy outer variable of the same name
-		path := []string{"v", "o.v", "shadow"}[j%3]
+		v := all[j/5]
+		// shadow: the value is the item of a loop whose variable shadows a truthy outer variable of the same name;
+		// title, json: the variable is named like a built-in template function
+		path := []string{"v", "o.v", "shadow", "title", "json"}[j%5]
 		return c03Case{Part: "uniform", Val: &v, Path: path}
 	}
 	r := i % rot
@@ -501,6 +502,14 @@ func (p *c03) execUniform(c c03Case) core.Obs {
 			m["v"] = v.Go()
 		}
 		data["o"] = m
+	} else if c.Path == "title" || c.Path == "json" {
+		if v.K == "missing" {
+			// without a variable of that name the name IS the function: not an undefined variable
+			o.Cell("skipped/function-name-without-a-variable")
+			return o
+		}
+		data[c.Path] = v.Go()
+		e = c.Path
 	} else if c.Path == "shadow" {
 		e = "v"
 		if v.K == "missing" {
